@@ -268,6 +268,7 @@ def pureSigma : Sigma → Bool
 
 /-- comparison of the library's result `r` with the model's result `d` -/
 def judgeNF (pure pure' : Bool) (r d : Expr) : Verdict :=
+  if !Diff.affordable r d then .skip "too-large" else
   match NF.firstErr r, NF.firstErr d with
   | some err, _ => .skip ("result-" ++ err.toString)
   | _, some err => .skip ("model-" ++ err.toString)
